@@ -835,6 +835,12 @@ func (h *gmeHarness) exec(line string) (out string) {
 		} else if a["name"] != "-" {
 			ctx = NewMEContext(ctx, a["name"])
 		}
+		if a["via"] == "stream" {
+			// a context derived from an earlier call of the library (a stream's Context()): the name is still in
+			// it, under the values the interceptors and an application middleware put on top
+			ctx = context.WithValue(ctx, gcpKey, &gcpContext{})
+			ctx = context.WithValue(ctx, vForeignKey(0), "x")
+		}
 		c := h.gme.pickConn(ctx)
 		for e, mc := range h.gme.pools {
 			if mc.conn == c {
@@ -856,6 +862,9 @@ func (h *gmeHarness) exec(line string) (out string) {
 	}
 	return "bad-op"
 }
+
+// vForeignKey: somebody else's context key type with the same underlying value as the library's own keys
+type vForeignKey int
 
 func (h *gmeHarness) digestAfterClose() string {
 	open := 0
@@ -997,7 +1006,11 @@ func TestVerifGME(t *testing.T) {
 				emit(fmt.Sprintf("gme pstate e=%s ready=%d", eps[rng.Intn(len(eps))], rng.Intn(2)))
 			case k < 7:
 				nm := []string{"-", "default", "read", "w", "x", "zzz", "~", "-"}[rng.Intn(8)]
-				emit("gme rpc name=" + nm)
+				if rng.Intn(4) == 0 {
+					emit("gme rpc name=" + nm + " via=stream")
+				} else {
+					emit("gme rpc name=" + nm)
+				}
 			default:
 				d, o, fl := genOpts()
 				emit(fmt.Sprintf("gme upd default=%s opts=%s fail=%s", d, o, fl))
